@@ -164,11 +164,31 @@ impl Scalar {
         }
         out
     }
-    /// stand-in for OS2IP(okm) mod r: the 16-bit oracle state carried by the first two octets of the
-    /// model expander's stream, reduced mod Q (all 257 values reachable; no loop)
+    /// stand-in for OS2IP(okm) mod r.  On the model expander's stream the value is the 16-bit oracle
+    /// state (first two octets) reduced mod Q, so all 257 values are reachable.  On a ZERO-EXTENDED
+    /// 32-octet scalar encoding (46 leading zero octets) it agrees with the scalar codec for canonical
+    /// strings and reduces a non-canonical tail mod Q - the relation OS2IP(0 || x) mod r = x mod r that
+    /// code may rely on.
     pub fn from_okm(bytes: &[u8; 48]) -> Scalar {
-        let v = (bytes[0] as u32) | ((bytes[1] as u32) << 8);
-        Scalar((v % Q) as u16, 0)
+        let mut hi: u8 = 0;
+        let mut i = 0;
+        while i < 46 {
+            hi |= bytes[i];
+            i += 1;
+        }
+        if hi == 0 {
+            if bytes[46] == 1 {
+                Scalar(bytes[47] as u16 + 1, 1)
+            } else if bytes[46] == 0 && bytes[47] == 0 {
+                Scalar(0, 0)
+            } else {
+                let v = ((bytes[46] as u32) << 8) | bytes[47] as u32;
+                Scalar((v % Q) as u16, 0)
+            }
+        } else {
+            let v = (bytes[0] as u32) | ((bytes[1] as u32) << 8);
+            Scalar((v % Q) as u16, 0)
+        }
     }
     /// Model: a uniformly random NON-ZERO scalar (zero has probability 1/r in the real field and is
     /// one of the globally excluded degenerate events): one draw, mapped to 1..=256 without a branch.
